@@ -215,6 +215,13 @@ func C06(r *h.Run) {
 					r.Case("unary_connect", fmt.Sprintf("UnaryConnect %d %s %s %s", status, h.CoqBool(enc == ""), jwireOf(b), coqOptCode(res.err)),
 						map[string]any{"in": in, "impl_error": fmt.Sprint(res.err)})
 				}
+				if status != 200 && enc != "" {
+					// a body in an encoding the client does not know cannot carry a protocol-level
+					// error it could read (a proxy's brotli-compressed error page): the HTTP status decides
+					if got, want := connect.CodeOf(res.err), specConnectHTTPToCode(status); res.err == nil || got != want {
+						r.Fail(h.Failure{Key: "client/status-derived-code", Family: "unary_connect", What: "non-200 response whose body is in an encoding the client does not know: the code is not the one derived from the HTTP status", Input: in, Expected: want.String(), Actual: fmt.Sprint(res.err)})
+					}
+				}
 				if status != 200 && enc == "" {
 					if res.err == nil {
 						r.Fail(h.Failure{Key: "client/non200-success", Family: "unary_connect", What: "non-200 unary response reported as success", Input: in})
